@@ -79,6 +79,43 @@ func systemLevelTimeouts(r *Run) {
 	}
 	r.Extra["system_redis_ttl_after_write"] = ttl.String()
 	r.Dist["system-level:redis-ttl"]++
+	// two filters that name the same Redis database under different spellings of its URL, with different limits: each
+	// filter's OWN limits govern the sessions written through it, in either order of configuration
+	for _, order := range [][2]int{{0, 1}, {1, 0}} {
+		mr2, err := miniredis.Run()
+		must(err)
+		uris := []string{"redis://" + mr2.Addr(), "redis://" + mr2.Addr() + "/0"}
+		limits := [][2]uint32{{100, 0}, {0, 7}}
+		var ocs []*oidcv1.OIDCConfig
+		c2 := &configv1.Config{}
+		for k := 0; k < 2; k++ {
+			i := order[k]
+			oc := &oidcv1.OIDCConfig{ClientId: fmt.Sprint("alias-", i), AbsoluteSessionTimeout: limits[i][0], IdleSessionTimeout: limits[i][1],
+				RedisSessionStoreConfig: &oidcv1.RedisConfig{ServerUri: uris[i]}}
+			ocs = append(ocs, oc)
+			c2.Chains = append(c2.Chains, &configv1.FilterChain{Name: fmt.Sprint("alias-", i), Filters: []*configv1.Filter{{Type: &configv1.Filter_Oidc{Oidc: oc}}}})
+		}
+		f2 := oidc.NewSessionStoreFactory(c2)
+		if err := f2.PreRun(); err != nil {
+			r.Violate("session store factory PreRun failed for two filters on one Redis database", map[string]any{"error": err.Error()})
+			mr2.Close()
+			continue
+		}
+		for k, oc := range ocs {
+			id := fmt.Sprintf("alias-%d-%d", order[0], k)
+			must(f2.Get(oc).SetTokenResponse(ctx, id, tok))
+			want := time.Duration(oc.AbsoluteSessionTimeout) * time.Second
+			if oc.IdleSessionTimeout > 0 {
+				want = time.Duration(oc.IdleSessionTimeout) * time.Second
+			}
+			if got := mr2.TTL(id); got < want-2*time.Second || got > want {
+				r.Violate("a filter's own session timeouts do not govern the sessions stored through it: another filter that names the same Redis database under a different spelling of its URL decides",
+					map[string]any{"filter_limits_abs_idle_s": []uint32{oc.AbsoluteSessionTimeout, oc.IdleSessionTimeout}, "server_uri": oc.RedisSessionStoreConfig.ServerUri, "ttl_of_its_session": got.String(), "order": order})
+			}
+		}
+		r.Dist["system-level:redis-url-aliases"]++
+		mr2.Close()
+	}
 	r.Case("system-level wiring")
 }
 
@@ -307,5 +344,60 @@ func concurrentExpiredReads(r *Run, tag string) {
 			r.Violate(tag+" a session that had outlived its timeouts was honoured when several requests presented it at the same time (concurrent reads of the in-memory store)",
 				map[string]any{"absolute": lim[0].String(), "idle": lim[1].String(), "presented_after": (wait + time.Second).String(), "reads_that_returned_data": bad, "first_method": what.Load(), "round": round})
 		}
+	}
+}
+
+// concurrentSweep: RemoveAllExpired is an operation of the store like any other. A session that has outlived its limit is
+// re-created (a write acknowledges) while a sweep runs: whichever comes first, the acknowledged write is there afterwards
+// - sweep first: the write creates the session; write first: the sweep sees a fresh session and keeps it.
+func concurrentSweep(r *Run, tag string) {
+	rounds := 150
+	if r.thorough() {
+		rounds = 3000
+	}
+	toks := tokPool()
+	for round := 0; round < rounds && r.unknownViolations() == 0; round++ {
+		var nowNs int64 = 1_700_000_000_000_000_000
+		var calls int64
+		clock := &oidc.Clock{NowFn: func() time.Time {
+			if atomic.AddInt64(&calls, 1)%2 == 0 {
+				time.Sleep(30 * time.Microsecond)
+			} else {
+				runtime.Gosched()
+			}
+			return time.Unix(0, atomic.LoadInt64(&nowNs)).UTC()
+		}}
+		store := oidc.NewMemoryStore(clock, 0, 2*time.Second)
+		ctx := context.Background()
+		for k := 0; k < 4; k++ {
+			must(store.SetTokenResponse(ctx, fmt.Sprint("old-", k), toks[0]))
+		}
+		atomic.AddInt64(&nowNs, int64(3*time.Second))
+		var wg sync.WaitGroup
+		start := make(chan struct{})
+		wg.Add(2)
+		go func() { defer wg.Done(); <-start; _ = store.RemoveAllExpired(ctx) }()
+		go func() {
+			defer wg.Done()
+			<-start
+			if round%2 == 0 {
+				runtime.Gosched()
+			}
+			for k := 0; k < 4; k++ {
+				_ = store.SetTokenResponse(ctx, fmt.Sprint("old-", k), toks[3])
+			}
+		}()
+		close(start)
+		wg.Wait()
+		for k := 0; k < 4; k++ {
+			got, _ := store.GetTokenResponse(ctx, fmt.Sprint("old-", k))
+			if got == nil || got.IDToken != toks[3].IDToken {
+				r.Violate(tag+" a write that was acknowledged while RemoveAllExpired was running is gone afterwards: the sweep is not atomic with respect to the other operations of the in-memory store",
+					map[string]any{"session": fmt.Sprint("old-", k), "round": round, "steps": "4 sessions past the idle limit; RemoveAllExpired concurrently with SetTokenResponse on each of them; then GetTokenResponse"})
+				break
+			}
+		}
+		r.Case(fmt.Sprintf("conc-sweep-%d", round))
+		r.Dist["concurrent-sweep"]++
 	}
 }
